@@ -8,6 +8,7 @@ import glob, json, os, shutil, sys
 OUT = "/verif/seeded"
 # what happened before the result recorded below (the earlier screening results were overwritten by the later ones)
 HISTORY = {
+    "C07-r6m2": "missed on its first screening (no input nested a class without superclass inside a method of a derived class); detected after the context-rule product was given to the parser twin",
     "C02-r5m1": "missed by C02 on its first screening (Natives.tla's pool has few haystack / needle pairs around character boundaries; C13 decides those on the checked build); detected after C02 got the cases of Strings.tla on the optimised build",
     "C02-r5m2": "missed by C02 on its first screening (no range of Natives.tla's pool had a negative end resolving before its start); detected after C02 got the cases of Strings.tla on the optimised build",
     "C03-r5m1": "missed on its first screening (no escape alphabet contained a multi-byte character); detected after the alphabet EscapesU was added",
